@@ -75,7 +75,7 @@ EXPORT bool _strisuppercase_s_chk(const char *dest, rsize_t dmax,
         return (false);
     }
 
-    while (*dest) {
+    while (dmax && *dest) {
 
         if ((*dest < 'A') || (*dest > 'Z')) {
             return (false);
